@@ -223,5 +223,5 @@ def run(run):
     sig = [0.5, 1, 2, [1, 2]] if thorough else [1, [0.5, 2]]
     dc = [{"p": a, "q": b, "sigma": s} for a in pool for b in pool for s in sig]
     secs.append(Section("distances", dc, distance_case, desc="MMD / clipped NLL / JS laws on all ordered pairs of a %d-distribution pool" % len(pool)))
-    secs.append(Section("save_load", [{"dists": [a, b]} for a in pool[::4] for b in pool[1::9]], io_case, desc="save_/load_measurement_outcome_distribution(s)"))
+    secs.append(Section("save_load", [{"dists": [a, b]} for a in pool[::4] for b in pool[1::9]] + [{"dists": [z, pool[0]]} for z in zero] + [{"dists": [pool[1], z, z]} for z in zero[:2]], io_case, desc="save_/load_measurement_outcome_distribution(s)"))
     run.run_sections(secs)
